@@ -195,6 +195,24 @@ def judgeGone (T : Tables) (stream : Bytes) (outs : List Bytes) : Verdict :=
     | some (k, true) => if k < reqs.length then .misfit k else .count reqs.length (k + 1)
     | _ => .ok
 
+/-- judge what a peer has RECEIVED on a connection that may have been cut in the middle of a frame (a `sendall`
+raised after a part of its frame went out): the received bytes are cut at their newlines; every complete line
+is a help text line / an event or the fitting reply to the oldest unanswered request line (in order; the last
+request lines may be unanswered), is valid UTF-8 and has a JSON data part (`flags`, one pair per complete line,
+tested by the harness with Python's decoder and parser).  Only the unterminated rest after the last newline -- a
+line cut off when the connection ended -- is not looked at: a part of a frame followed by anything else sent
+later makes a complete line that is none of the above. -/
+def judgeReceived (T : Tables) (stream received : Bytes) (flags : List (Bool × Bool)) : Verdict :=
+  let reqs := (splitLines stream).lines
+  let outs := (splitLines received).lines.map (· ++ [EOL])
+  match scan T 0 reqs outs with
+  | some (k, true) => if k < reqs.length then .misfit k else .count reqs.length (k + 1)
+  | _ =>
+    match flags.findIdx? (fun f => !f.1), flags.findIdx? (fun f => !f.2) with
+    | some i, _ => .notUtf8 i
+    | none, some i => .notStrict i
+    | none, none => .ok
+
 /-- the module part of a specifier `module[:accessible]` -/
 def moduleOf (spec : Bytes) : Bytes := spec.takeWhile (· != 58)
 
